@@ -449,7 +449,7 @@ def main():
     for w in ([8, 32, 64] if rep.tier == "quick" else [1, 8, 16, 32, 64, 128]):
         for vname in EXPR_VARIANTS:
             items.append({"t": "eval", "variant": vname, "bits": w})
-    for w in ([8, 16, 32, 64] if rep.tier == "quick" else [1, 3, 8, 16, 32, 64, 128]):
+    for w in ([8, 16, 32, 64, 65, 128] if rep.tier == "quick" else [1, 3, 8, 16, 32, 64, 65, 72, 128, 256]):
         items.append({"t": "builder", "kind": "sra", "bits": w})
         items.append({"t": "builder", "kind": "rotl", "bits": w})
         for i in range(6 if rep.tier == "quick" else 40):
